@@ -81,7 +81,7 @@ def generate(seed, tier, focus="frame"):
         # the real UDP transport on a loopback socket: datagrams of very different sizes one after the other
         # (each is followed by a short sentinel datagram inside the harness), cut and over-declared ones in between
         import os, time
-        port = 24000 + ((int(time.time()) * 7 + os.getpid()) % 20000)
+        port = 23000 + ((int(time.time()) * 7 + os.getpid()) % 990)      # below the kernel's ephemeral port range
         lines.append("udpwire new %d" % port)
         for i in range(120 if tier == "quick" else 3000):
             k = g.rint(0, 5)
